@@ -1550,7 +1550,12 @@ class Quantity(metaclass=QuantityMeta):
 
     def __hash__(self) -> int:
         """hash(self)"""
-        return hash((self.amount, self.unit))
+        ref_unit = self.__class__.ref_unit
+        if ref_unit is None:
+            return hash((self.amount, self.unit))
+        # quantities which are equal must have the same hash value,
+        # independent of their units
+        return hash((self.equiv_amount(ref_unit), ref_unit))
 
     def __abs__(self: Q) -> Q:
         """abs(self) -> self.Quantity(abs(self.amount), self.unit)"""
